@@ -417,9 +417,12 @@ func (s *pState) flush(cw *cwriter.Writer, height int, iter <-chan *Bar) error {
 			b.cancel()
 			continue
 		}
+		// rows of a bar that is being popped out stay on screen for good:
+		// they are not part of the frame that has to fit the height
+		popOut := frame.shutdown == 2 && s.popCompleted && !frame.noPop
 		var usedRows int
 		for i := len(frame.rows) - 1; i >= 0; i-- {
-			if row := frame.rows[i]; len(rows) < height {
+			if row := frame.rows[i]; len(rows) < height || popOut {
 				rows = append(rows, row)
 				usedRows++
 			} else {
